@@ -37,6 +37,12 @@
 #define RINGCAP 1
 #endif
 #define L 7
+#ifndef HM1
+#define HM1 15
+#endif
+#ifndef HM2
+#define HM2 15
+#endif
 
 #define SCEN_EXTRA unsigned char d1, d2, ntrig, ecmd[2], ekind[2], refuse_at;
 
@@ -139,13 +145,19 @@ static void scen_run(void)
         ASSUME((S.in_len == 6 && S.in[5] == '\n') || (S.in_len == 7 && S.in[5] == '\r' && S.in[6] == '\n'));
         ASSUME(S.hm[0] & H_READ);
         ASSUME(S.vacc[0] == CAT_VAR_ACCESS_READ_WRITE && S.vcb[0] == 0);
+#ifndef EVENTS_FULLY_SYMBOLIC
+        /* this scenario explores SCHEDULES (trigger placement, event choice, refusal position); the descriptor is pinned:
+         * symbolic handler subsets / capacities on top of it exhausted 14 GB without a verdict */
+        ASSUME(S.hm[0] == 15 && S.hm[1] == HM1 && S.hm[2] == HM2 && S.capb == 16 && S.in_len == 6);
+        ASSUME(S.rc[0] == 1 && S.vinit[0] == 207);
+#endif
         ASSUME(S.d1 < WIN && S.d2 <= 2 && S.ntrig <= 2);
         ASSUME(S.refuse_at <= N);
         t1 = T0 + S.d1;
         t2 = t1 + S.d2;
         world_build();
         W.sched_w = 1;
-        for (i = 0; i < N; i++) { ASSUME(S.sw[i] <= 1); ASSUME(S.sw[i] == (i != S.refuse_at)); if (!S.sw[i]) zw++; }
+        for (i = 0; i < N; i++) { ASSUME(S.sw[i] <= 1); ASSUME(S.sw[i] == (i == S.refuse_at)); if (S.sw[i]) zw++; }
 
         for (k = 0; k < N; k++) {
                 cat_status busy;
@@ -207,7 +219,10 @@ static void scen_sample(void)
         S.vacc[0] = 0; S.vcb[0] = 0;
         S.d1 = (unsigned char)rnd(WIN); S.d2 = (unsigned char)rnd(3); S.ntrig = (unsigned char)rnd(3);
         S.ecmd[0] = (unsigned char)rnd(2); S.ecmd[1] = (unsigned char)rnd(2); S.ekind[0] = (unsigned char)(rnd(4) == 0); S.ekind[1] = (unsigned char)(rnd(4) == 0);
+#ifndef EVENTS_FULLY_SYMBOLIC
+        S.hm[0] = 15; S.hm[1] = HM1; S.hm[2] = HM2; S.capb = 16; S.in[5] = '\n'; S.in_len = 6; S.rc[0] = 1; S.vinit[0] = 207;
+#endif
         S.refuse_at = (unsigned char)(rnd(3) ? N : rnd(N));
-        for (i = 0; i < N; i++) S.sw[i] = (unsigned char)(i != S.refuse_at);
+        for (i = 0; i < N; i++) S.sw[i] = (unsigned char)(i == S.refuse_at);
 }
 #endif
